@@ -1,6 +1,6 @@
 (* Properties_C05.v — C05: output and checkpoints do not depend on worker timing.
    The SDL model's next() takes the arrival SCHEDULE as an argument; the theorems quantify over it. Proofs: SdlMapProofs.v. *)
-From PD Require Import Base SdlModel SdlObs SdlMapProofs.
+From PD Require Import Base SdlModel SdlObs SdlMapProofs SdlIterScope SdlIterSmall SdlIterSmall2.
 Open Scope list_scope. Open Scope nat_scope.
 
 (* map-style: any two arrival schedules give the same epoch *)
@@ -28,3 +28,25 @@ Print Assumptions C05_map_checkpoint_schedule_independent.
 Definition C05_iter_statement : Prop :=
   forall c, c_kind c = KIter -> 0 < c_W c -> 0 < c_P c -> length (c_shards c) = c_W c -> c_bad c = [] ->
   forall sched sched', outcomes c (S (length (reference c))) (sdl_fresh c) sched = outcomes c (S (length (reference c))) (sdl_fresh c) sched'.
+
+(* the iterable statement on a SMALL SCOPE (finite-domain theorems by computation in the kernel, SdlIterSmall.v / SdlIterSmall2.v;
+   scopes as stated in Properties_C03.v / Properties_C01.v): any two arrival schedules give the same epoch, and the
+   continuation after a resume at any k is the same for any two pairs of schedules *)
+Theorem C05_iter_schedule_independent_small_scope : forall c a b, In c small_cfgs ->
+  In a (all_lists [0; 1] 7) -> In b (all_lists [0; 1] 7) ->
+  outcomes c (S (length (reference c))) (sdl_fresh c) a = outcomes c (S (length (reference c))) (sdl_fresh c) b.
+Proof. intros c a b Hc Ha Hb. rewrite (iter_epoch_exact_small_scope c a Hc Ha), (iter_epoch_exact_small_scope c b Hc Hb). reflexivity. Qed.
+Print Assumptions C05_iter_schedule_independent_small_scope.
+
+Theorem C05_iter_checkpoint_schedule_independent_small_scope : forall c k a1 a2 b1 b2, In c resume_cfgs -> k <= length (reference c) ->
+  In a1 (all_lists [0; 1] 3) -> In a2 (all_lists [0; 1] 3) -> In b1 (all_lists [0; 1] 3) -> In b2 (all_lists [0; 1] 3) ->
+  (let '(sk, _) := replay c k (sdl_fresh c) a1 in let '(sr, sc) := sdl_resume c (state_dict sk) a2 in outcomes c (S (length (reference c) - k)) sr sc) =
+  (let '(sk, _) := replay c k (sdl_fresh c) b1 in let '(sr, sc) := sdl_resume c (state_dict sk) b2 in outcomes c (S (length (reference c) - k)) sr sc).
+Proof.
+  intros c k a1 a2 b1 b2 Hc Hk Ha1 Ha2 Hb1 Hb2.
+  pose proof (iter_resume_exact_small_scope c k a1 a2 Hc Hk Ha1 Ha2) as Ea. pose proof (iter_resume_exact_small_scope c k b1 b2 Hc Hk Hb1 Hb2) as Eb.
+  destruct (replay c k (sdl_fresh c) a1) as [ska ?]. destruct (sdl_resume c (state_dict ska) a2) as [sra sca].
+  destruct (replay c k (sdl_fresh c) b1) as [skb ?]. destruct (sdl_resume c (state_dict skb) b2) as [srb scb].
+  rewrite Ea, Eb. reflexivity.
+Qed.
+Print Assumptions C05_iter_checkpoint_schedule_independent_small_scope.
